@@ -18,7 +18,11 @@ func runC02(cfg *runCfg) error {
 		}
 		_ = wi
 		for _, c := range [][3]bool{{false, false, false}, {true, false, false}} {
-			rsEnumerate(w, depth, c[0], c[1], c[2], func(sc *rsScenario) { enum = append(enum, sc) })
+			d := depth
+			if cfg.tier == "thorough" && rsPacketsBound(w.Ops) <= 3 {
+				d = 3 // every placement of three consecutive faults for the small workloads
+			}
+			rsEnumerate(w, d, c[0], c[1], c[2], func(sc *rsScenario) { enum = append(enum, sc) })
 		}
 	}
 	fams := []rsFamily{
